@@ -164,6 +164,12 @@ func concrete(c cell, path string, k, j int) (interface{}, error) {
 	case "b":
 		return c.Cls == "true", nil
 	case "s":
+		switch c.Cls {
+		case "sp3":
+			return "a b", nil
+		case "sp4":
+			return "a  b", nil
+		}
 		if path == "text" {
 			return textString(c.Len, k, j), nil
 		}
